@@ -235,6 +235,52 @@ func c08Identities(p *run.Part) {
 	}
 }
 
+// c08RawLinks writes entries whose link lists are NOT normalised by entry creation (duplicates and every
+// order, as a block written by another implementation may carry) straight through the codec and reads them back.
+func c08RawLinks(p *run.Part) {
+	grammarInit()
+	st := store.New()
+	io := defaultIO()
+	base, err := entrySpec{Payload: []byte("raw"), Time: 4, Writer: 0, LogID: "X", Next: []int{}, Refs: []int{}}.build(st, io)
+	if err != nil {
+		panic(err)
+	}
+	lists := linkLists(3)
+	for _, nx := range lists {
+		for _, rf := range lists {
+			if len(nx)+len(rf) > 4 {
+				continue
+			}
+			e := base.Copy()
+			e.SetNext(linksOf(nx))
+			e.SetRefs(linksOf(rf))
+			cc := c08Case{Codec: "default", What: fmt.Sprintf("raw-links:next=%v refs=%v", nx, rf)}
+			p.Add(1, 1, 0, 1)
+			c, err := entry.ToMultihashWithIO(world.Ctx, e, st, nil, io)
+			if err != nil {
+				p.Violate("rawlinks", "C08:default:raw-write-failed", err.Error(), cc)
+				continue
+			}
+			d, err := entry.FromMultihashWithIO(world.Ctx, st, c, world.IDs[0].Provider, io)
+			if err != nil {
+				p.Violate("rawlinks", "C08:default:raw-read-failed", err.Error(), cc)
+				continue
+			}
+			if !eqCids(d.GetNext(), e.GetNext()) || !eqCids(d.GetRefs(), e.GetRefs()) {
+				p.Violate("rawlinks", "C08:default:field-differs:links-not-normalised", fmt.Sprintf("a block written with next=%v refs=%v (pool indices) reads back with next=%v refs=%v", nx, rf, d.GetNext(), d.GetRefs()), cc)
+				continue
+			}
+			c2, err := entry.ToMultihashWithIO(world.Ctx, d, store.New(), nil, io)
+			if err != nil || !c2.Equals(c) {
+				p.Violate("rawlinks", "C08:default:re-encode-different-cid", fmt.Sprintf("block with next=%v refs=%v: decoded entry re-encodes to %v (err %v), block is %s", nx, rf, c2, err, c), cc)
+				continue
+			}
+			p.Add(0, 0, 1, 0)
+			p.Nontriv(cc.What)
+		}
+	}
+}
+
 // C08Digest computes the digest over the CIDs of all grammar entries (default codec) and all manifests.
 func C08Digest(tier string) string {
 	g := grammar(tier)
@@ -343,6 +389,7 @@ func c08Run(p *run.Part, tier string) {
 	}
 	c08Vectors(p)
 	c08Identities(p)
+	c08RawLinks(p)
 	p.SetExtra("grammar_entries", len(g))
 	p.SetExtra("cid_digest", mine)
 	p.Sample(6, c08Case{Spec: g[3], Codec: "default", What: "roundtrip"})
@@ -549,6 +596,8 @@ func init() {
 			c08Vectors(p)
 		case strings.HasPrefix(c.What, "identity-variants"):
 			c08Identities(p)
+		case strings.HasPrefix(c.What, "raw-links"):
+			c08RawLinks(p)
 		case c.What == "manifest" || c.What == "process" || c.What == "collision":
 			c08Run(p, "quick")
 		default:
